@@ -108,12 +108,13 @@ def _run_one(args) -> dict:
             e.prop = prop_override
         mod = importlib.import_module(f'iva.rules.{e.prop.lower()}')
         ctx = Ctx(e.prop, work, 'quick')
-        try:
-            mod.check(ctx)
+        from .report import run_rules
+        ex = run_rules(mod, ctx)
+        if ex is None:
             from .rules import caches
             caches.report_used(ctx)
-        except AnalysisError as ex:
-            # like bin/check: violations found before a rule gave up are kept; without any the run is undecided
+        else:
+            # like bin/check: violations found by the other rules are kept; without any the run is undecided
             if e.expect == 'noalarm' and not ctx.new_violations():
                 return {'id': e.id, 'status': 'ok', 'expect': e.expect, 'undecided': str(ex)[:200]}
             if not ctx.new_violations():
